@@ -87,9 +87,14 @@ def m_int(eng, st, args, kw, fr):
     from .values import SStr
     if args and isinstance(args[0], SStr):
         from .strings import to_int
+        base = args[1] if len(args) > 1 else kw.get('base', 10)
+        if base != 10:
+            raise Unsupported('int(symbolic decimal string, base != 10)')
         G.CUR = (eng, st.pc)
         try:
             return _ret(st, to_int(args[0]))
+        except ValueError as e:
+            return [(st, RAISE, e)]
         finally:
             G.CUR = None
     from .strings import SHex
@@ -417,6 +422,15 @@ def m_ldexp(eng, st, args, kw, fr):
 def m_float(eng, st, args, kw, fr):
     if args and isinstance(args[0], SFloat):
         return _ret(st, args[0])
+    from .values import SStr as _SStr
+    if args and isinstance(args[0], _SStr):
+        # float(<symbolic decimal literal>): only the validation effect is modelled (ValueError for a malformed shape); the
+        # value is an Unknown-free dummy because callers that use it are outside the model
+        import re
+        shape = ''.join(c if isinstance(c, str) else '7' for c in args[0].chars)
+        if re.fullmatch(r'[+-]?(\d+\.?\d*|\.\d+)(e[+-]?\d+)?', shape):
+            return _ret(st, 0.0)
+        return [(st, RAISE, ValueError('could not convert string to float'))]
     if has_sym(list(args)):
         raise Unsupported('float() of symbolic')
     if has_unknown(list(args)):
